@@ -279,7 +279,18 @@ func runC06(c *Ctx) {
 		}
 		lg = built
 	} else {
-		lg = zap.New(core, opts...)
+		// the options reach the logger at construction, through
+		// Logger.WithOptions, or through SugaredLogger.WithOptions
+		switch g.Weighted(3, 1, 1) {
+		case 0:
+			lg = zap.New(core, opts...)
+		case 1:
+			lg = zap.New(core).WithOptions(opts...)
+			c.R.Probe("options applied through Logger.WithOptions")
+		default:
+			lg = zap.New(core).Sugar().WithOptions(opts...).Desugar()
+			c.R.Probe("options applied through SugaredLogger.WithOptions")
+		}
 	}
 	if g.Chance(3) {
 		lg = lg.With(zap.String("ctx", "v")).Named("svc")
